@@ -196,6 +196,9 @@ struct R {
     /// the session left the scope of the exactly-once statement (inconsistent raw message for the
     /// transfer's tick, oversize data)
     tainted: bool,
+    /// the first accepted part of the multi-part transfer in progress, as seen from outside:
+    /// (tick, absolute base tick, num_parts, crc)
+    first: Option<(i32, i32, i32, i32)>,
 }
 
 impl R {
@@ -209,6 +212,7 @@ impl R {
             completed: false,
             abandoned: false,
             tainted: false,
+            first: None,
         }
     }
 
@@ -253,6 +257,46 @@ impl R {
             o.count("older-message");
             if res != Res::Err("OldDelta") || !ws.is_empty() {
                 o.fail("C12/older-message-not-refused", format!("newest={:?} msg={} -> {}", self.newest, m.text(), text));
+            }
+        }
+        // (O3) attributes of a multi-part transfer are those of its first part: later parts that
+        // differ are warned about (and only those), and the delivery carries the first part's
+        // base tick and checksum — also in streams that are not consistent
+        match m {
+            OMsg::Snap { tick: t, dt, n, crc, .. } => {
+                let attrs = (*t, t.wrapping_sub(*dt), *n, *crc);
+                match res {
+                    Res::Err(_) => {}
+                    _ => {
+                        if self.first.map(|f| f.0 != *t).unwrap_or(true) {
+                            self.first = Some(attrs);
+                        }
+                        let f = self.first.unwrap();
+                        let differs = f != attrs;
+                        let warned = ws.iter().any(|w| *w == Warning::DifferingAttributes);
+                        if differs != warned {
+                            o.fail(
+                                "C12/differing-attributes-warning-wrong",
+                                format!("first part (tick, base, parts, crc)={:?}, this part {:?} -> {}", f, attrs, text),
+                            );
+                        }
+                        if let Res::Some(rt, rb, ref dc) = res {
+                            o.count("multi-part-delivery");
+                            if rt != f.0 || rb != f.1 || dc.as_ref().map(|x| x.1) != Some(f.3) {
+                                o.fail(
+                                    "C12/delivery-attributes-not-from-first-part",
+                                    format!("first part (tick, base, parts, crc)={:?} -> {}", f, text),
+                                );
+                            }
+                            self.first = None;
+                        }
+                    }
+                }
+            }
+            _ => {
+                if let Res::Some(..) = res {
+                    self.first = None;
+                }
             }
         }
         // (O2) the remembered transfer
@@ -406,6 +450,25 @@ impl Runner for R {
                 };
                 self.feed_checked(&m.1, Some(m.0), o)
             }
+            // a copy of remembered message `i` whose crc / delta_tick fields were altered on the way
+            ["pg", i, dcrc, ddt] => {
+                let (dcrc, ddt) = match (int(dcrc), int(ddt)) {
+                    (Some(a), Some(b)) => (a, b),
+                    _ => return "bad-args".to_string(),
+                };
+                let mut m = match (i.parse::<usize>().ok(), self.xfer.as_ref()) {
+                    (Some(i), Some(x)) if i < x.chunks.len() => x.chunks[i].clone(),
+                    _ => return "bad-index".to_string(),
+                };
+                match &mut m {
+                    OMsg::Empty { dt, .. } => *dt = dt.wrapping_add(ddt),
+                    OMsg::Single { dt, crc, .. } | OMsg::Snap { dt, crc, .. } => {
+                        *dt = dt.wrapping_add(ddt);
+                        *crc = crc.wrapping_add(dcrc);
+                    }
+                }
+                self.feed_checked(&m, None, o)
+            }
             ["c", i] => match (i.parse::<usize>().ok(), self.xfer.as_ref()) {
                 (Some(i), Some(x)) if i < x.chunks.len() => x.chunks[i].text(),
                 _ => "bad-index".to_string(),
@@ -426,6 +489,7 @@ impl Runner for R {
             },
             ["reset"] => {
                 self.recv.reset();
+                self.first = None;
                 self.newest = None;
                 self.seen.clear();
                 self.started = false;
@@ -572,12 +636,19 @@ impl<'a> G<'a> {
                 self.newest = None;
             }
             5 => {
+                // last completed tick t0, transfer in progress for t1: ticks in between are stale
                 let l = self.raw(t0, 1);
                 self.line(l);
                 self.saw(t0);
                 let d = self.small_data();
                 self.line(format!("m {} 2 2 0 0 {}", t1, d));
                 self.saw(t1);
+                if t1 - t0 >= 2 {
+                    let mid = if self.rng.chance(1, 2) { t0 + 1 } else { self.rng.range(t0 + 1, t1 - 1) };
+                    let form = self.rng.below(3);
+                    let l = self.raw(mid, form);
+                    self.line(l);
+                }
                 if let Some(l) = self.older() {
                     self.line(l);
                 }
@@ -738,6 +809,48 @@ impl Domain for D {
                     }
                 }
             }
+        }
+
+        // (d2) one part arrives with an altered checksum or base tick field (before, instead of or
+        // after the true copy): the delivery carries the first part's attributes, the odd part is
+        // warned about
+        let n = if thorough { 3000 } else { 150 };
+        for _ in 0..n {
+            let k = g.rng.range(2, 6) as usize;
+            let tick = pick_tick(&mut g.rng);
+            let base = pick_tick(&mut g.rng);
+            let len = len_for_parts(&mut g.rng, k);
+            g.new_session(tick, base, len);
+            let pv = g.rng.below(7);
+            g.prelude(tick, pv);
+            let mut order: Vec<usize> = (0..k).collect();
+            shuffle(&mut g.rng, &mut order);
+            let bad = g.rng.below(k as u64) as usize;
+            let (dcrc, ddt) = match g.rng.below(3) {
+                0 => (*g.rng.pick(&[1i64, -1, 256]), 0),
+                1 => (0, *g.rng.pick(&[1i64, -1, 7])),
+                _ => (1, 1),
+            };
+            let mode = g.rng.below(3);
+            for (pos, &i) in order.iter().enumerate() {
+                if pos == bad {
+                    match mode {
+                        0 => g.line(format!("pg {} {} {}", i, dcrc, ddt)),
+                        1 => {
+                            g.line(format!("pg {} {} {}", i, dcrc, ddt));
+                            g.line(format!("p {}", i));
+                        }
+                        _ => {
+                            g.line(format!("p {}", i));
+                            g.line(format!("pg {} {} {}", i, dcrc, ddt));
+                        }
+                    }
+                } else {
+                    g.line(format!("p {}", i));
+                }
+                g.saw(tick);
+            }
+            g.line(format!("p {}", order[0]));
         }
 
         // (e) oversize data: more than 32 parts (the receiver refuses every part)
